@@ -323,4 +323,27 @@ theorem C02_const (F : FpuSpec) (hostCw : BitVec 16) (fval : BitVec 80) (s : FSt
   · obtain ⟨s', h1, h2, h3, _⟩ := num_f80 F fval s
     exact ⟨s', h1, ⟨s.st, h2⟩, h2, h3⟩
 
+/-- the full statement about constants, for integer-valued spellings n: narrowing what `strtold` returns (n rounded to the
+    64 significant bits of a long double) yields the correctly rounded double / float.  **It is false** (double rounding,
+    Findings/C02.lean); `C02_const` above is the part that holds: the code materialises exactly the narrowed `fval`. -/
+def C02_const_Statement : Prop :=
+  ∀ n : Nat, roundNat 53 (roundNat 64 n) = roundNat 53 n ∧ roundNat 24 (roundNat 64 n) = roundNat 24 n
+
+/-- … and it does hold for every spelling whose value has at most 64 significant bits (every integer below 2^64,
+    every literal that is exactly a long double): the first rounding is the identity -/
+theorem C02_const_partial (n : Nat) (h : n < 2 ^ 64) :
+    roundNat 53 (roundNat 64 n) = roundNat 53 n ∧ roundNat 24 (roundNat 64 n) = roundNat 24 n := by
+  have hb : bitLen n ≤ 64 := by
+    unfold bitLen
+    split
+    · omega
+    · rename_i h0
+      have := (Nat.log2_lt h0).2 h
+      omega
+  have e : roundNat 64 n = n := by simp [roundNat, roundQS, hb]
+  rw [e]; exact ⟨rfl, rfl⟩
+
+/-- non-vacuity -/
+example : (16777217 : Nat) < 2 ^ 64 := by decide
+
 end ChibiVerif.Props.C02
